@@ -147,6 +147,15 @@ def run(R):
                 ev = np.sort(np.linalg.eigvalsh(M))
                 if np.max(np.abs(ev - np.array([-1, 0, 1]) / math.sqrt(2))) > 1e-9:
                     bad = bad or dict(case, check='double-couple proposal has eigenvalues (1, 0, -1)/sqrt2', eigenvalues=ev.tolist())
+            # each proposed coordinate is the current value plus its own width times one of the standard normal draws that was made
+            zs_all = [v for v in st.log if not isinstance(v, tuple)]
+            for k in (('h', 'sigma', 'kappa') if dc else ('gamma', 'delta', 'h', 'sigma', 'kappa')):
+                cand = [xi[k] + alg.alpha[k] * z for z in zs_all]
+                if k == 'kappa':
+                    cand = [c % (2 * PI) for c in cand]
+                if not any(abs(xv[k] - c) <= 1e-12 * max(1.0, abs(c)) for c in cand):
+                    bad = bad or dict(case, check='proposal is the current state plus width x standard normal draw, coordinate by coordinate (%s)' % k,
+                                      coordinate=k, candidates=cand)
             if sl:
                 loops, items, lets, extra, h = sl[dc]
                 try:
